@@ -53,6 +53,30 @@ def run_mutant(path):
         shutil.rmtree(tmp, ignore_errors=True)
 
 
+def run_benign(path):
+    """a behaviour-preserving variant of /repo: the named check must stay silent (exit 0, no VIOLATION)"""
+    name = os.path.basename(path)[:-5]
+    m = re.match(r"^(C\d+)-", name)
+    if not m:
+        return name, False, "bad file name"
+    pid = m.group(1)
+    tmp = tempfile.mkdtemp(prefix="verif-selftest-")
+    try:
+        for d in DIRS:
+            if os.path.isdir(os.path.join(REPO, d)):
+                shutil.copytree(os.path.join(REPO, d), os.path.join(tmp, d))
+        r = subprocess.run(["patch", "-p1", "-s", "--no-backup-if-mismatch", "-d", tmp, "-i", path], stdout=subprocess.PIPE, stderr=subprocess.STDOUT, text=True)
+        if r.returncode != 0:
+            return name, False, "patch does not apply: " + r.stdout[-300:]
+        env = dict(os.environ, VERIF_REPO=tmp, VERIF_EVID_DIR=os.path.join(tmp, "_evidence"))
+        r = subprocess.run([os.path.join(VERIF, "check"), pid], cwd=VERIF, env=env, stdout=subprocess.PIPE, stderr=subprocess.STDOUT, text=True, timeout=1800)
+        if r.returncode == 0 and "VIOLATION" not in r.stdout:
+            return name, True, r.stdout.strip().splitlines()[-1][:160]
+        return name, False, "exit %d: %s" % (r.returncode, r.stdout[-400:].replace(tmp + "/", ""))
+    finally:
+        shutil.rmtree(tmp, ignore_errors=True)
+
+
 def main():
     args = [a for a in sys.argv[1:] if not a.startswith("-")]
     jobs = 8
@@ -83,7 +107,14 @@ def main():
         for name, good, msg in ex.map(run_mutant, muts):
             print("%s %s: %s" % ("DETECTED" if good else "MISSED  ", name, msg))
             ok = ok and good
-    print("selftest: %s (%d mutants)" % ("all good" if ok else "FAILURES", len(muts)))
+    bens = sorted(glob.glob(os.path.join(VERIF, "selftest", "benign", "*.diff")))
+    if args:
+        bens = [b for b in bens if any(a in os.path.basename(b) for a in args)]
+    with concurrent.futures.ThreadPoolExecutor(max_workers=jobs) as ex:
+        for name, good, msg in ex.map(run_benign, bens):
+            print("%s %s: %s" % ("SILENT  " if good else "ALARM   ", name, msg))
+            ok = ok and good
+    print("selftest: %s (%d mutants, %d behaviour-preserving variants)" % ("all good" if ok else "FAILURES", len(muts), len(bens)))
     return 0 if ok else 1
 
 
